@@ -97,6 +97,7 @@ import (
 	"time"
 
 	"github.com/a-h/templ"
+	templruntime "github.com/a-h/templ/runtime"
 )
 
 type jobArgs struct {
@@ -132,6 +133,9 @@ type job struct {
 	Overlap bool ` + "`json:\"overlap\"`" + `
 	// B64: s1, s2 and xs are base64 (JSON cannot carry invalid UTF-8 or NUL-free guarantees).
 	B64 bool ` + "`json:\"b64\"`" + `
+	// RuntimeBuf: the caller took a buffer from templ's runtime (templruntime.GetBuffer) around the
+	// destination, as code that controls flushing itself does, and hands that to Render.
+	RuntimeBuf bool ` + "`json:\"runtime_buf\"`" + `
 }
 
 func unb64(s string) string {
@@ -343,6 +347,18 @@ func runJob(j job, parallel bool) (r result) {
 		}
 		c := roots[j.K](a.S1, a.S2, a.B1, a.B2, a.N, a.XS, a.Fail, comp)
 		render := func() error { return c.Render(ctx, dst) }
+		if j.RuntimeBuf {
+			render = func() error {
+				b, existing := templruntime.GetBuffer(dst)
+				err := c.Render(ctx, b)
+				if !existing {
+					if ferr := templruntime.ReleaseBuffer(b); err == nil {
+						err = ferr
+					}
+				}
+				return err
+			}
+		}
 		if j.ToGoHTML {
 			render = func() error {
 				h, err := templ.ToGoHTML(ctx, c)
